@@ -11,11 +11,14 @@ from __future__ import annotations
 
 import copy
 import warnings
+from collections import Counter
+from fractions import Fraction
 
 from hypothesis import strategies as st
 
 from .. import gen
 from ..engine import (
+    Hooks,
     Interp,
     NOT_ENOUGH_CARDS,
     Tape,
@@ -94,10 +97,186 @@ def apply_record(s, op):
     raise TypeError(name)
 
 
-def _run(cfg, tape, upto=None, state=None, pos=0):
+class Exact:
+    """"The log is exact": after every operation the logged players, amounts
+    and cards are compared with what actually moved between the previous
+    operation and this one (stacks, bets, hole cards and their facing, board,
+    burns, discards, statuses), independently of how records are built."""
+
+    def __init__(self):
+        self.prev = None
+        self.viol = []
+        self.checked = 0
+
+    @staticmethod
+    def light(s):
+        return dict(
+            stacks=list(s.stacks), bets=list(s.bets),
+            hole=[tuple(h) for h in s.hole_cards],
+            hst=[tuple(x) for x in s.hole_card_statuses],
+            board=Counter(c for row in s.board_cards for c in row),
+            burn=tuple(s.burn_cards),
+            disc=Counter(c for d in s.discarded_cards for c in d),
+            muck=Counter(s.mucked_cards), statuses=list(s.statuses),
+        )
+
+    def v(self, key, msg):
+        if not self.viol:
+            self.viol.append(V(ID, 'record_inexact', key, msg))
+
+    def __call__(self, s, op):
+        if op is None:
+            return
+        n = s.player_count
+        if self.prev is None:
+            zero = 0 * s.starting_stacks[0]
+            self.prev = dict(
+                stacks=list(s.starting_stacks), bets=[zero] * n,
+                hole=[()] * n, hst=[()] * n, board=Counter(), burn=(),
+                disc=Counter(), muck=Counter(), statuses=[True] * n)
+        p, now = self.prev, self.light(s)
+        self.prev = now
+        if self.viol:
+            return
+        k = op_kind(op)
+        self.checked += 1
+        tol = 0 if isinstance(s.starting_stacks[0], (int, Fraction)) \
+            else 1e-9 * max(1.0, float(sum(s.starting_stacks)))
+        ds = [now['stacks'][i] - p['stacks'][i] for i in range(n)]
+        db = [now['bets'][i] - p['bets'][i] for i in range(n)]
+
+        def eq(a, b):
+            return abs(a - b) <= tol
+
+        def only(i, dstack, dbet):
+            for j in range(n):
+                ws, wb = (dstack, dbet) if j == i else (0, 0)
+                if not eq(ds[j], ws) or not eq(db[j], wb):
+                    return (f'{op!r}: player {j} stack {ds[j]:+} bet'
+                            f' {db[j]:+}, the record implies stack {ws:+}'
+                            f' bet {wb:+}')
+            return None
+
+        bad = None
+        if k in ('post_ante', 'post_blind_or_straddle', 'post_bring_in',
+                 'check_or_call'):
+            bad = only(op.player_index, -op.amount, op.amount)
+        elif k == 'complete_bet_or_raise_to':
+            i = op.player_index
+            bad = only(i, -(op.amount - p['bets'][i]),
+                       op.amount - p['bets'][i])
+            if not bad and not eq(now['bets'][i], op.amount):
+                bad = f'{op!r}: bet of player {i} is {now["bets"][i]}'
+        elif k == 'collect_bets':
+            for i in range(n):
+                returned = ds[i]
+                taken = -db[i] - returned
+                if returned < -tol or not eq(taken, op.bets[i]):
+                    bad = (f'{op!r}: player {i} had {p["bets"][i]} in front,'
+                           f' {returned} went back to the stack, {taken} to'
+                           f' the pot; logged {op.bets[i]}')
+                    break
+        elif k == 'push_chips':
+            for i in range(n):
+                if not eq(db[i], op.amounts[i]) or not eq(ds[i], 0):
+                    bad = (f'{op!r}: player {i} bet {db[i]:+} stack'
+                           f' {ds[i]:+}')
+                    break
+        elif k == 'pull_chips':
+            bad = only(op.player_index, op.amount, -op.amount)
+        elif k in ('fold', 'kill_hand', 'select_runout_count',
+                   'stand_pat_or_discard', 'show_or_muck_hole_cards',
+                   'deal_hole', 'deal_board', 'burn_card'):
+            if any(not eq(x, 0) for x in ds + db):
+                bad = f'{op!r} moved chips: stacks {ds} bets {db}'
+        if bad is None and k == 'deal_hole':
+            i = op.player_index
+            for j in range(n):
+                wh = p['hole'][j] + (tuple(op.cards) if j == i else ())
+                wst = p['hst'][j] + (tuple(op.statuses) if j == i else ())
+                if now['hole'][j] != wh or now['hst'][j] != wst:
+                    bad = (f'{op!r}: player {j} holds {now["hole"][j]}'
+                           f' {now["hst"][j]}, expected {wh} {wst}')
+                    break
+        elif bad is None and k == 'deal_board':
+            if now['board'] - p['board'] != Counter(op.cards) or \
+                    p['board'] - now['board']:
+                bad = (f'{op!r}: board gained'
+                       f' {sorted(map(repr, (now["board"] - p["board"]).elements()))}')
+        elif bad is None and k == 'burn_card':
+            if not now['burn'] or now['burn'][-1] != op.card:
+                bad = f'{op!r}: burn pile ends with {now["burn"][-1:]}'
+        elif bad is None and k == 'stand_pat_or_discard':
+            i = op.player_index
+            lost = Counter(p['hole'][i]) - Counter(now['hole'][i])
+            if lost != Counter(op.cards) or \
+                    now['disc'] - p['disc'] != Counter(op.cards):
+                bad = (f'{op!r}: hand lost {sorted(map(repr, lost.elements()))},'
+                       f' discards gained'
+                       f' {sorted(map(repr, (now["disc"] - p["disc"]).elements()))}')
+        elif bad is None and k in ('fold', 'kill_hand'):
+            i = op.player_index
+            if not p['statuses'][i] or now['statuses'][i] or now['hole'][i]:
+                bad = (f'{op!r}: status {p["statuses"][i]} ->'
+                       f' {now["statuses"][i]}, holds {now["hole"][i]}')
+            elif now['muck'] - p['muck'] != Counter(p['hole'][i]):
+                bad = f'{op!r}: muck did not gain exactly {p["hole"][i]}'
+        elif bad is None and k == 'show_or_muck_hole_cards':
+            i = op.player_index
+            if not op.hole_cards:
+                if now['statuses'][i] or now['hole'][i]:
+                    bad = f'{op!r}: a muck, but player {i} is still in'
+            else:
+                up = Counter(c for c, t in zip(now['hole'][i], now['hst'][i])
+                             if t)
+                was_up = Counter(c for c, t in zip(p['hole'][i], p['hst'][i])
+                                 if t and c)
+                logged = Counter(c for c in op.hole_cards if c)
+                if logged - up or (up - was_up) - logged or \
+                        len(op.hole_cards) != len(now['hole'][i]):
+                    bad = (f'{op!r}: face-up cards of player {i} are now'
+                           f' {sorted(map(repr, up.elements()))} (were'
+                           f' {sorted(map(repr, was_up.elements()))})')
+        if bad is None and k not in ('fold', 'kill_hand',
+                                     'show_or_muck_hole_cards'):
+            if now['statuses'] != p['statuses']:
+                bad = f'{op!r} changed statuses {p["statuses"]} -> {now["statuses"]}'
+        if bad is None and k not in ('deal_hole', 'stand_pat_or_discard',
+                                     'fold', 'kill_hand',
+                                     'show_or_muck_hole_cards'):
+            if now['hole'] != p['hole'] or now['hst'] != p['hst']:
+                bad = f'{op!r} changed hole cards'
+        if bad:
+            self.v(str(k), bad)
+
+
+class Complete(Hooks):
+    """"The log is complete": every public operation that returns a record
+    has appended exactly that record (first, before any automated follow-up).
+    """
+
+    def __init__(self):
+        self.viol = []
+        self.n0 = 0
+
+    def before(self, it, kind, args):
+        self.n0 = len(it.state.operations)
+
+    def after(self, it, kind, args, result):
+        ops = it.state.operations
+        if self.viol:
+            return
+        if len(ops) <= self.n0 or ops[self.n0] != result:
+            self.viol.append(V(
+                ID, 'operation_not_logged', kind,
+                f'{kind}{args!r} returned {result!r} but the log entry at'
+                f' #{self.n0} is {ops[self.n0] if len(ops) > self.n0 else None!r}'))
+
+
+def _run(cfg, tape, upto=None, state=None, pos=0, hooks=None):
     t = Tape(tape)
     t.pos = pos
-    it = Interp(cfg, t, state=state)
+    it = Interp(cfg, t, state=state, hooks=hooks)
     n = 0
     while it.state.status and (upto is None or n < upto):
         if it.step() is None:
@@ -114,6 +293,7 @@ def c15_case(draw):
         cfg['autos'] &= ~(1 << 7)
     cfg['commentary'] = draw(st.booleans())
     case['copy_at'] = draw(st.integers(0, 40))
+    case['late_show'] = draw(st.sampled_from([0, 0, 1, 2, 3]))
     return case
 
 
@@ -122,6 +302,34 @@ def c15_case(draw):
 FUZZ = dict(
     thorough=dict(procs=16, runs=6000, wall=900),
 )
+
+
+def _late_show(it, case, complete):
+    """The documented non-standard show: once the hand is over a player who
+    is still in may table his face-down cards (explicit index).  It is an
+    operation like any other, so it must be logged and replayable."""
+    s = it.state
+    k = case.get('late_show')
+    if not k or s.status:
+        return
+    live = [i for i in s.player_indices if s.statuses[i]
+            and s.hole_cards[i] and not all(s.hole_card_statuses[i])
+            and all(bool(c) for c in s.hole_cards[i])]
+    if not live:
+        return
+    i = live[k % len(live)]
+    if not s.can_show_or_muck_hole_cards(True, i):
+        return
+    n0 = len(s.operations)
+    r = s.show_or_muck_hole_cards(True, i)
+    it.steps.append(('show_or_muck_hole_cards', (True, i)))
+    if complete is not None and not complete.viol:
+        if len(s.operations) <= n0 or s.operations[n0] != r:
+            complete.viol.append(V(
+                ID, 'operation_not_logged', 'late_show',
+                f'show_or_muck_hole_cards(True, {i}) after the hand returned'
+                f' {r!r} but {len(s.operations) - n0} record(s) were'
+                ' appended'))
 
 
 def budget(tier):
@@ -142,8 +350,12 @@ def check(case, stats):
     with warnings.catch_warnings():
         warnings.simplefilter('error' if cfg.get('strict') else 'ignore')
         with observing(_runaway_observer):
+            exact = Exact()
+            complete = Complete()
             try:
-                it1 = _run(cfg, tape)
+                with observing(exact):
+                    it1 = _run(cfg, tape, hooks=complete)
+                    _late_show(it1, case, complete)
             except Exception as e:  # noqa: BLE001
                 if not is_engine_exception(e):
                     raise
@@ -156,8 +368,12 @@ def check(case, stats):
                 return [V(ID, 'engine_crash', exc_key(e), repr(e))]
             s1 = it1.state
             snap1 = snapshot(s1)
+            out.extend(exact.viol)
+            out.extend(complete.viol)
+            stats.count('records_checked_exact', exact.checked)
             # (b) determinism
             it2 = _run(cfg, tape)
+            _late_show(it2, case, None)
             if it2.state.operations != s1.operations:
                 out.append(V(ID, 'nondeterministic_log', '',
                              'two runs of the same case give different logs'))
